@@ -37,6 +37,8 @@ pub enum RunnerEv
     Discard(Entity),
     /// The root runner is about to reset the tree counter.
     RootExit(Entity),
+    /// The runner returns (every `Enter` has exactly one `Exit`).
+    Exit(Entity),
 }
 
 /// Starts (or stops, with `false`) recording runner events on this thread.
